@@ -1,9 +1,9 @@
 SPECIFICATION Spec
 CONSTANTS
-  MaxLen = 7
+  MaxLen = 8
   MaxDepth = 3
   Fuel = 80
-  Alphabet = {"O", "IO", "EO", "EIO", "C", "IG", "EG", "EIG", "G", "L", "LP", "P", "INC"}
-  Names = {"y"}
+  Alphabet = {"O", "C", "G", "L", "P"}
+  Names = {"y", "z"}
 INVARIANTS MachineSane NoUB Monitors Scans EmitCase
 CHECK_DEADLOCK FALSE
